@@ -200,6 +200,10 @@ class Extractor:
             short = name.rsplit("::", 1)[-1]
             A = t["args"]
             try:
+                if name in FN_ITEMS and len(A) == 1:
+                    # a primitive parser applied directly to the input (`newline(rest)?`), not passed to a combinator
+                    apps.append((bb, FN_ITEMS[name]()))
+                    continue
                 if name.startswith("nom::"):
                     term = self._nom_call(body, env, name, short, A)
                     if dst is not None and term is not None:
